@@ -843,7 +843,7 @@ pub fn rln_witness_to_bigint_json(rln_witness: &RLNWitnessInput) -> Result<serde
 }
 
 pub fn message_id_range_check(message_id: &Fr, user_message_limit: &Fr) -> Result<()> {
-    if message_id > user_message_limit {
+    if message_id >= user_message_limit {
         return Err(color_eyre::Report::msg(
             "message_id is not within user_message_limit",
         ));
